@@ -523,7 +523,20 @@ PreludeFuncs ==
   ELSE <<>>
 Prelude == IF Has("struct") THEN "P" ELSE ""
 
-Program == [prelude |-> Prelude, funcs |-> PreludeFuncs, body |-> Finish(g.frames[1], NilE)]
+\* Family "pkginit" (a lead from C12): package-level initialisers that are referenced first from a function
+\* whose parameter shadows one of their operands.  The three declarations
+\*     func c(p string) int { _ = p; return b }      var b = a      const a = 1
+\* appear in one of three orders, with p = "a" (shadowing) or "z"; main prints c("x") and b.
+GlobalDecls(v) ==
+  IF v = 0 THEN <<>> ELSE
+  LET pn == IF v <= 3 THEN "a" ELSE "z"
+      fC == [St("tfunc", "", 0, <<>>, <<<<Asg(<<VarE("_")>>, <<VarE(pn)>>), Ret(<<VarE("b")>>)>>>>, <<"c">>)
+             EXCEPT !.sig = [ps |-> <<Ent(pn, "string", FALSE, FALSE)>>, rs |-> <<Ent("", "int", FALSE, FALSE)>>]]
+      vB == VarInit("b", "", VarE("a"))        \* var b = a   (untyped)
+      cA == ConstS("a", IntE(1))
+      o == ((v - 1) % 3) + 1
+  IN CASE o = 1 -> <<fC, vB, cA>> [] o = 2 -> <<cA, vB, fC>> [] OTHER -> <<vB, cA, fC>>
+Program == [prelude |-> Prelude, funcs |-> PreludeFuncs, globals |-> GlobalDecls(g.gv), body |-> Finish(g.frames[1], NilE)]
 
 -----------------------------------------------------------------------------
 \* Part II -- small-step semantics of the abstract syntax above.
@@ -1170,6 +1183,7 @@ TypeOf(e, tenv) ==
                          ELSE IF \A i \in 2..Len(e.a) : T(i) = "int" THEN "[]int" ELSE "ERR"
     [] e.k = "call" -> IF T(1) = "func() int" /\ Len(e.a) = 1 THEN "int"
                        ELSE IF T(1) = "func(int) int" /\ ArgsAre(2, <<"int">>) THEN "int"
+                       ELSE IF T(1) = "func(string) int" /\ ArgsAre(2, <<"string">>) THEN "int"
                        ELSE IF T(1) = "func()" /\ Len(e.a) = 1 THEN "void" ELSE "ERR"
     [] e.k = "mcall" -> IF T(1) \in {"P", "*P"} /\ ArgsAre(2, MethodSig(e.s).ps)
                            /\ (MethodSig(e.s).r # "void" \/ e.a[1].k = "var")    \* pointer receiver needs an addressable operand
@@ -1260,8 +1274,17 @@ OKStmts(ss, tenv, ctx) ==
                ELSE s.sig = NoSig /\ OKStmts(rest, tenv, ctx)
     [] OTHER -> FALSE
 
+\* package-level scope: order of declaration does not matter in Go
+GlobalTenv(prog) == IF prog.globals = <<>> THEN <<>>
+                    ELSE <<[x |-> "b", t |-> "int"], [x |-> "a", t |-> "int"], [x |-> "c", t |-> "func(string) int"]>>
 WellTyped(prog) ==
-  /\ OKStmts(prog.body, <<>>, Ctx(FALSE, FALSE, {}, <<>>, FALSE))
+  /\ OKStmts(prog.body, GlobalTenv(prog), Ctx(FALSE, FALSE, {}, <<>>, FALSE))
+  /\ \A i \in 1..Len(prog.globals) :
+        LET d == prog.globals[i] IN
+        CASE d.k = "tfunc" -> OKStmts(d.b[1], TBind(GlobalTenv(prog), <<d.sig.ps[1].x>>, <<d.sig.ps[1].t>>),
+                                      Ctx(FALSE, FALSE, {}, <<d.sig.rs[1].t>>, FALSE))
+          [] d.k \in {"var", "const"} -> TypeOf(d.e[1], GlobalTenv(prog)) = "int"
+          [] OTHER -> FALSE
   /\ \A i \in 1..Len(prog.funcs) :
         LET f == prog.funcs[i] IN
         OKStmts(f.b, TBind(<<[x |-> f.rx, t |-> f.rt]>>, [j \in 1..Len(f.sig.ps) |-> f.sig.ps[j].x], [j \in 1..Len(f.sig.ps) |-> f.sig.ps[j].t]),
@@ -1352,7 +1375,8 @@ Families ==
          FamRec("switch", FSwitch \ {"switchnotag"}, 4, 1, {"m"}, {1}),    FamRec("slice", FSlice, 2, 1, {"m"}, {5}),
          FamRec("map", FMap, 2, 1, {"m"}, {5}),          FamRec("struct", FStruct, 2, 0, {"m"}, {5}),
          FamRec("clos", FClos, 4, 2, {"m"}, {1}),        FamRec("defer", FDefer, 4, 2, {"m"}, {1}),
-         FamRec("panic", FPanic, 2, 2, {"m"}, {0}),      FamRec("shadow", FShadow, 2, 1, {"m"}, {1}) }
+         FamRec("panic", FPanic, 2, 2, {"m"}, {0}),      FamRec("shadow", FShadow, 2, 1, {"m"}, {1}),
+         FamRec("pkginit", {"pkginit"}, 0, 0, {"m"}, {1}) }
     [] Tier = "thorough" -> {
          FamRec("expr", FExpr, 1, 0, {"m"}, {2, 3}),     FamRec("expr2", FExpr2, 1, 0, {"m"}, {2}),
          FamRec("bits", FBits, 1, 0, {"m"}, {1, 2}),     FamRec("assign", FAssign, 2, 0, {"m"}, {2}),
@@ -1364,7 +1388,8 @@ Families ==
          FamRec("map", FMap, 3, 1, {"m"}, {5}),
          FamRec("struct", FStruct, 3, 0, {"m"}, {5}),    FamRec("clos", FClos \cup {"func1", "funcv", "ret"}, 4, 2, {"m"}, {1}),
          FamRec("defer", FDefer, 5, 2, {"m"}, {1}),      FamRec("panic", FPanic, 3, 2, {"m"}, {0, 5}),
-         FamRec("shadow", FShadow \cup {"for3"}, 3, 2, {"m"}, {1}) }
+         FamRec("shadow", FShadow \cup {"for3"}, 3, 2, {"m"}, {1}),
+         FamRec("pkginit", {"pkginit"}, 0, 0, {"m"}, {1}) }
     [] Tier = "mut" -> {  \* small programs whose every mutation site (and pair of sites) is enumerated (C06, C07)
          FamRec("assign", {"envint", "envstr", "asg", "opasg", "inc", "swap", "vardecl", "const", "declint", "arith"}, 1, 0, {"m"}, {2}),
          FamRec("slice", FSlice, 1, 1, {"m"}, {5}),      FamRec("map", FMap, 1, 1, {"m"}, {5}),
@@ -1396,14 +1421,17 @@ InitEnvOf(ft) ==
   (IF "envint" \in ft THEN <<Ent("a", "int", FALSE, TRUE), Ent("b", "int", FALSE, TRUE)>> ELSE <<>>)
   \o (IF "envstr" \in ft THEN <<Ent("c", "string", FALSE, TRUE)>> ELSE <<>>)
   \o (IF "envbool" \in ft THEN <<Ent("d", "bool", FALSE, TRUE)>> ELSE <<>>)
+  \o (IF "pkginit" \in ft THEN <<Ent("b", "int", TRUE, FALSE)>> ELSE <<>>)
 InitBodyOf(ft) ==
   (IF "envint" \in ft THEN <<Decl(<<"a", "b">>, <<IntE(7), Un("-", IntE(3))>>)>> ELSE <<>>)
   \o (IF "envstr" \in ft THEN <<Decl(<<"c">>, <<StrE(<<"x", "y">>)>>)>> ELSE <<>>)
   \o (IF "envbool" \in ft THEN <<Decl(<<"d">>, <<BoolE(FALSE)>>)>> ELSE <<>>)
+  \o (IF "pkginit" \in ft THEN <<PrintS(<<Call(VarE("c"), <<StrE(<<"x">>)>>), VarE("b")>>)>> ELSE <<>>)
 
 Init == /\ phase = "gen"
         /\ \E f \in {f \in Families : f.name \in Fams \/ Fams = {"*"}} :
-             g = [cfg |-> f, frames |-> <<[Frame("main", St("main", "", 0, <<>>, <<>>, <<>>), InitEnvOf(f.feat), {})
+           \E gv \in (IF "pkginit" \in f.feat THEN 1..6 ELSE {0}) :
+             g = [cfg |-> f, gv |-> gv, frames |-> <<[Frame("main", St("main", "", 0, <<>>, <<>>, <<>>), InitEnvOf(f.feat), {})
                                              EXCEPT !.body = InitBodyOf(f.feat)]>>,
                   left |-> f.budget, fresh |-> 4, prog |-> <<>>, muts |-> <<>>, sugar |-> "go"]
         /\ m = InitM
